@@ -204,7 +204,7 @@ def parse_statement(lexer, toplevel=False):
                 symbolname = symbol
                 if lexer.matchIf("as", "keyword"):
                     symbolname = lexer.matchIdentifier()
-                symbols[symbol] = symbolname
+                symbols[symbolname] = symbol
                 if not lexer.peekn(1, "]", "interpunction"):
                     lexer.match(",", "interpunction")
             lexer.match("]", "interpunction")
